@@ -212,6 +212,8 @@ def run(ctx, params):
             k = rng.random()
             literals = () if k < 0.4 else tuple(rng.sample(present, min(len(present), rng.randint(1, 3)))) if k < 0.85 else ("markup", "literalLayout", "noSuchName")
             ctx.case(judge, ctx, doc, text, clean, collapse, literals)
+            if i % 7 == 0:
+                ctx.later(lambda c, d=doc, t=text, a=clean, b=collapse, l=literals: judge(c, d, t, a, b, l))
         if i % 263 == 0:
             ctx.sample({"xml": text[:600], "elements": text.count("</") + text.count("/>")})
 
